@@ -98,6 +98,12 @@ func init() {
 		Stubs:     []string{"wall clock: simulated through the package variable timeNow"},
 		LevelText: "seeded search over frame-timestamp and wall-clock histories of the real estimator; the window clause is checked on every call, the exact-difference clause on every steady step whose expected value stays inside the window",
 		LevelNote: "trusted: exact reference arithmetic with math/big; 1 ns tolerance for the two truncations"})
+	reg(&propDef{ID: "C38", World: "w2a", Chunk: 300, Level: "exploration", Quick: 12000, Thorough: 1500000, QuickS: 60, ThorS: 1200,
+		Rule:      "seeded sequence of 1-8 file operations (write in place, two-chunk write, rename-over, delete+re-create, kubernetes-style symlink swap, chmod, unrelated file) separated by 0 ms..5 s (around the 10 ms and 1 s thresholds) x notification lag x consumer reload latency x seeded schedule; non-trivial = two or more content changes; distinct = distinct event-log hash",
+		Real:      []string{"internal/confwatcher.ConfWatcher (instrumented)", "real file system operations, filepath.EvalSymlinks"},
+		Stubs:     []string{"github.com/fsnotify/fsnotify: simulated (the harness feeds the notifications an inotify watcher of the parent directory produces)", "Core.run: a consumer that re-reads the file on every signal and keeps the last complete content"},
+		LevelText: "seeded search over timings of file operations, notification delivery and consumer latency of the real watcher on the simulated clock; the oracle compares what the consumer loaded with the file's final content 10 simulated seconds after the last change",
+		LevelNote: "trusted: the notification sequences the harness emits per operation match Linux inotify semantics; Core's reaction is modelled by the consumer (level 2, the watcher inside Core, is not built)"})
 	props["C40"].Race = true
 	props["C40"].Quick, props["C40"].Thorough = 1200, 100000
 	props["C40"].LevelNote += "; metrics scrapes over HTTP and real session kick paths are outside (front-ends are stubs); data races are those the Go race detector reports under the explored schedules"
@@ -844,6 +850,11 @@ func countOps(body map[string]any) (actors, ops int) {
 			}
 		}
 	}
+	for _, key := range []string{"ops", "arrivals"} {
+		if o, ok := body[key].([]any); ok {
+			ops += len(o)
+		}
+	}
 	return
 }
 
@@ -946,6 +957,19 @@ func confirmShrinkWrite(b *built, p *propDef, l *line, v violation, budget time.
 			if r, ok := try(cand); ok {
 				cur, sc, dec, progress = cand, r.Scenario, r.Decisions, true
 				as = cur["actors"].([]any)
+			}
+		}
+		// top-level operation lists of the small worlds
+		for _, key := range []string{"ops", "arrivals"} {
+			lst, _ := cur[key].([]any)
+			for j := len(lst) - 1; j >= 0 && len(lst) > 1 && time.Since(t0) < budget; j-- {
+				cand := clone(cur)
+				cl := cand[key].([]any)
+				cand[key] = append(cl[:j:j], cl[j+1:]...)
+				if r, ok := try(cand); ok {
+					cur, sc, dec, progress = cand, r.Scenario, r.Decisions, true
+					lst = cur[key].([]any)
+				}
 			}
 		}
 		as, _ = cur["actors"].([]any)
